@@ -162,6 +162,13 @@ def selfcheck():
         ok = False
     from . import rules  # noqa: F401
 
+    try:
+        from .localnames import load_table
+
+        t = load_table()
+        print(f"selfcheck: local-name reference table covers {sum(len(v) for v in t.values())} functions in {len(t)} files")
+    except Exception as err:  # the table is an aid, not an oracle: without it renamed locals are simply not normalised
+        print(f"selfcheck: local-name table not usable ({err!r}); renamed locals will not be normalised")
     print(f"selfcheck: {sum(len(v) for v in REGISTRY.values())} rules registered for {len(REGISTRY)} properties")
     return 0 if ok else 2
 
